@@ -87,7 +87,13 @@ Fits(sh) ==
   IN /\ sh.corank + sh.nzero + sh.ndup <= sh.ncols
      /\ (sh.alg = "lanczos") => (sh.nrows >= 128 /\ free >= 110)
 
-Init == s \in Small \cup Edge \cup Large \cup Lanczos
+\* short and wide (Gauss): far more columns than rows, so the kernel has 65 .. 300 dimensions (the coranks 0..100 of the
+\* property and beyond) whatever the planted corank is: more kernel vectors than a 64-bit word of coefficients holds
+WideDims == <<<<1, 70>>, <<5, 80>>, <<20, 100>>, <<30, 130>>, <<64, 130>>, <<10, 200>>, <<100, 170>>, <<3, 300>>>>
+Wide == {Sh("gauss", WideDims[i][1], WideDims[i][2], k, prof, z, z) :
+            i \in 1..Len(WideDims), k \in {0, 3}, prof \in {"dense", "uniform"}, z \in {0, 1}}
+
+Init == s \in Small \cup Edge \cup Large \cup Lanczos \cup Wide
 Next == UNCHANGED s
 Emit == Fits(s) => PrintT(<<"SHAPE", ToJson(s)>>)
 =============================================================================
